@@ -2,6 +2,7 @@ package sysx
 
 import (
 	"context"
+	"errors"
 	"encoding/binary"
 	"fmt"
 	"hash/fnv"
@@ -9,6 +10,7 @@ import (
 	"sort"
 	"strings"
 	"sync"
+	"sync/atomic"
 	"time"
 
 	mqtt "github.com/eclipse/paho.mqtt.golang"
@@ -327,11 +329,15 @@ func (s *Stub) TestEncodingOperation(ctx context.Context, in *model.EncodingMess
 // ---------------------------------------------------------------------------------------------
 
 type gatedDialer struct {
-	inner mongofake.Dialer
-	sched *Sched
+	inner   mongofake.Dialer
+	sched   *Sched
+	defunct *atomic.Bool // the process that owned this dialer died: it reaches nothing any more
 }
 
 func (d gatedDialer) DialContext(ctx context.Context, network, address string) (net.Conn, error) {
+	if d.defunct != nil && d.defunct.Load() {
+		return nil, errors.New("sysx: dialer of a dead server process")
+	}
 	c, err := d.inner.DialContext(ctx, network, address)
 	if err != nil {
 		return nil, err
